@@ -16,3 +16,23 @@ pub assume_specification<I: Iterator>[<core::iter::Enumerate<I> as Iterator>::ne
                 && enum_rest(*final(e)) == enum_rest(*old(e)).skip(1) && enum_count(*final(e)) == enum_count(*old(e)) + 1,
             None => enum_rest(*old(e)).len() == 0 && enum_rest(*final(e)).len() == 0 && enum_count(*final(e)) == enum_count(*old(e)),
         };
+
+// prophetic view of a caller-supplied source before it is wrapped: the items it will deliver
+pub uninterp spec fn iter_items<I: Iterator>(i: I) -> Seq<I::Item>;
+
+// R17: `X.enumerate()` is redirected to this wrapper (body = the original call); Enumerate starts counting at 0
+#[verifier::external_body]
+pub fn verif_enumerate<I: Iterator>(i: I) -> (r: core::iter::Enumerate<I>)
+    ensures enum_count(r) == 0, enum_rest(r) == iter_items(i),
+{
+    i.enumerate()
+}
+
+// R8c: a documented `assert!(cond, "..")` of a public constructor is the statement `if !cond { panic }`;
+// panicking is the documented behaviour, so it is modelled as allowed divergence (the code after it may assume cond)
+#[verifier::external_body]
+pub fn verif_documented_panic() -> (r: bool)
+    ensures false,
+{
+    panic!("Error: match_kind mismatch")
+}
